@@ -628,6 +628,17 @@ func (c *Config) serverInit(originalConfig *Config) {
 		return
 	}
 
+	if originalConfig != nil && originalConfig != c {
+		originalConfig.mutex.RLock()
+		inherit := len(originalConfig.sessionTicketKeys) != 0
+		originalConfig.mutex.RUnlock()
+		if !inherit {
+			// The Config passed to Server has no ticket keys to share
+			// (its own tickets are disabled): c needs keys of its own.
+			originalConfig = nil
+		}
+	}
+
 	alreadySet := false
 	for _, b := range c.SessionTicketKey {
 		if b != 0 {
@@ -651,6 +662,23 @@ func (c *Config) serverInit(originalConfig *Config) {
 		originalConfig.mutex.RUnlock()
 	} else {
 		c.sessionTicketKeys = []ticketKey{ticketKeyFromBytes(c.SessionTicketKey)}
+	}
+}
+
+// ensureTicketKeys runs serverInit on the first use of c and again whenever
+// session tickets are enabled while there is no ticket key. serverInit creates
+// no key while SessionTicketsDisabled is set, so a Config whose tickets are
+// enabled after it has served a connection would otherwise reach encryptTicket
+// with an empty key list. The argument is the same as that of serverInit.
+func (c *Config) ensureTicketKeys(originalConfig *Config) {
+	c.serverInitOnce.Do(func() { c.serverInit(originalConfig) })
+
+	c.mutex.RLock()
+	missing := !c.SessionTicketsDisabled && len(c.sessionTicketKeys) == 0
+	c.mutex.RUnlock()
+	if missing {
+		// serverInit checks again under the write lock.
+		c.serverInit(originalConfig)
 	}
 }
 
